@@ -549,7 +549,9 @@ class JacobianAssembly:
                 jacobian.real
             )
 
-        return bmat(total_jacobian, format="csr")
+        # The assembled Jacobian is in double precision whatever the data types of
+        # the Jacobians of the disciplines (integer, single precision, ...).
+        return bmat(total_jacobian, format="csr", dtype=float)
 
     def assemble_jacobian(
         self,
